@@ -1,4 +1,5 @@
 import MidoProofs.SrcTie.Vlq
+import MidoProofs.SrcTie.VlqRead
 import MidoProofs.SrcTie.Writer
 import MidoProofs.SrcTie.Reader
 import MidoProofs.SrcTie.Tracks
